@@ -147,19 +147,34 @@ Lemma sent_upd_other s g x lp' cnt' :
   (match lp' x with LSending _ => cnt' x - 1 | _ => cnt' x end) = sent s x.
 Proof. intros _ -> ->. reflexivity. Qed.
 
-Lemma Inv_step cap s l s' : Inv s -> step cap s l = Some s' -> Inv s'.
+Lemma inv_logcall cap s e s' : Inv s -> step cap s (LogCall e) = Some s' -> Inv s'.
 Proof.
-  intros I Hs. destruct l; unfold step, gstep in Hs.
-  - (* LogCall *)
+  intros I Hs. unfold step, gstep in Hs.
     destruct (lp s (eg e)) eqn:L; try discriminate. destruct (en e =? cnt s (eg e)) eqn:C; [|discriminate].
     apply N.eqb_eq in C. inversion Hs; subst s'; clear Hs.
     destruct I as [H1 H2 H3 H4 H5 H6 H7 H10 H11 H12 H13]. constructor; cbn; auto.
     + intros x Hin. specialize (H10 x Hin). unfold sent in *. cbn. unfold upd.
-      destruct (eg x =? eg e) eqn:E; [|exact H10]. apply N.eqb_eq in E. rewrite E, L in H10. lia.
+      destruct (eg x =? eg e) eqn:E; [|exact H10]. apply N.eqb_eq in E. rewrite E, L in H10. rewrite ?E. lia.
     + intros g x. unfold upd. destruct (g =? eg e) eqn:E.
       * apply N.eqb_eq in E. intros X. inversion X; subst. split; [reflexivity | lia].
       * apply H11.
     + intros g x. unfold upd. destruct (g =? eg e) eqn:E; [discriminate | apply H12].
+Qed.
+
+(* an accepted levelled call is, from the accept on, a call without a level: the level is never consulted again *)
+Lemma logcallat_is_logcall cap s e l s' : step cap s (LogCallAt e l) = Some s' -> lvl s <= l /\ step cap s (LogCall e) = Some s'.
+Proof.
+  unfold step, gstep. destruct (lvl s <=? l) eqn:G; [|discriminate]. apply N.leb_le in G. intros H. split; [exact G | exact H].
+Qed.
+Lemma logfiltered_nop cap s g l s' : step cap s (LogFiltered g l) = Some s' -> l < lvl s /\ lp s g = LIdle /\ s' = s.
+Proof.
+  unfold step, gstep. destruct (lp s g) eqn:L; try discriminate. destruct (l <? lvl s) eqn:G; [|discriminate]. apply N.ltb_lt in G.
+  intros H. inversion H. subst. auto.
+Qed.
+
+Lemma Inv_step cap s l s' : Inv s -> step cap s l = Some s' -> Inv s'.
+Proof.
+  intros I Hs. destruct l; try (eapply inv_logcall; eassumption); unfold step, gstep in Hs.
   - (* Enq *)
     destruct (lp s g) eqn:L; try discriminate. destruct (N.of_nat (length (q s)) <? cap); [|discriminate].
     inversion Hs; subst s'; clear Hs.
@@ -186,6 +201,12 @@ Proof.
       destruct (eg x =? eg e) eqn:E; [|exact H10]. apply N.eqb_eq in E. rewrite E, L in H10. rewrite E. exact H10.
     + intros g x. unfold upd. destruct (g =? eg e) eqn:E; [discriminate | apply H11].
     + intros g x. unfold upd. destruct (g =? eg e) eqn:E; [discriminate | apply H12].
+  - (* SetLevel *)
+    inversion Hs; subst s'; clear Hs. destruct I as [H1 H2 H3 H4 H5 H6 H7 H10 H11 H12 H13]. constructor; cbn; auto.
+  - (* LogCallAt *)
+    apply (inv_logcall cap s e s' I). apply (logcallat_is_logcall cap s e l s' Hs).
+  - (* LogFiltered *)
+    destruct (logfiltered_nop cap s g l s' Hs) as (_ & _ & ->). exact I.
   - (* FlushCall *)
     destruct I as [H1 H2 H3 H4 H5 H6 H7 H10 H11 H12 H13].
     destruct (fl s c) eqn:F; try discriminate; inversion Hs; subst s'; clear Hs; constructor; cbn; auto.
@@ -319,12 +340,23 @@ Proof.
   destruct l; cbn in *; try assumption; discriminate.
 Qed.
 
+(* case analyses on labels can ignore LogCallAt: an accepted levelled call steps exactly like LogCall *)
+Lemma normalize_label cap s l s' : step cap s l = Some s' ->
+  exists l', step cap s l' = Some s' /\ calls_of [l'] = calls_of [l] /\ writes_of [l'] = writes_of [l] /\ rets_of [l'] = rets_of [l] /\
+             vis l' = vis l /\ (forall e n, l' <> LogCallAt e n).
+Proof.
+  intros Hs. destruct l; try (eexists; split; [exact Hs | repeat split; discriminate]).
+  exists (LogCall e). split; [apply (logcallat_is_logcall _ _ _ _ _ Hs) | repeat split; discriminate].
+Qed.
+
 (* every entry in the system was submitted by a logging call *)
 Definition submitted (s : st) (C : list entry) : Prop :=
   (forall e, In e (hist s) -> In e C) /\ (forall g e, lp s g = LSending e \/ lp s g = LSent e -> In e C).
 Lemma step_submitted cap s l s' C : step cap s l = Some s' -> submitted s C -> submitted s' (C ++ calls_of [l]).
 Proof.
-  intros Hs [H1 H2]. destruct l; crush_step Hs; eqb_subst; rewrite ?app_nil_r; split; auto; cbn.
+  intros Hs0 [H1 H2]. destruct (normalize_label _ _ _ _ Hs0) as (l' & Hs & <- & _ & _ & _ & NL). clear Hs0.
+  destruct l' as [| | | |e9 n9| | | | | | | | | | |]; try (exfalso; eapply NL; reflexivity);
+    crush_step Hs; eqb_subst; rewrite ?app_nil_r; split; auto; cbn.
   - intros x Hin. apply in_or_app. left. auto.
   - intros g x. unfold upd. destruct (g =? eg e) eqn:E.
     + intros [X | X]; inversion X; subst. apply in_or_app. right. now left.
@@ -646,13 +678,13 @@ Proof. intros I. pose proof (hist_NoDup _ I) as N. rewrite (pend_hist _ I) in N.
 
 (* a state change that leaves [pend] and everything the relation mentions alone, and does not reach Done *)
 Lemma sim_same_pend s a s' :
-  Sim s a -> fp s <> Done -> pend s' = pend s -> lp s' = lp s -> cnt s' = cnt s -> retd s' = retd s -> fl s' = fl s ->
+  Sim s a -> (fp s <> Done \/ fp s' = fp s) -> pend s' = pend s -> lp s' = lp s -> cnt s' = cnt s -> retd s' = retd s -> fl s' = fl s ->
   req s' = req s -> pre_req s' = pre_req s -> Sim s' a.
 Proof.
   intros [S1 S2 S3 S4 S5 S6 S7 S8] ND Ep El Ec Er Ef Erq Epr.
   constructor; rewrite ?Ep, ?El, ?Ec, ?Er; auto.
   - eapply FlRel_mono; eauto. lia.
-  - intros X. exfalso. auto.
+  - intros X. destruct ND as [ND | ->]; [exfalso; auto | auto].
 Qed.
 
 Lemma sim_write cap s a e s' :
@@ -698,19 +730,14 @@ Proof.
   destruct (_ && _) eqn:C in Hs; [|discriminate]. inversion Hs; subst s'; clear Hs.
   apply andb_true_iff in C. destruct C as [Cp Ce]. apply entry_eqb_eq in Ce. subst e'.
   apply (sim_same_pend s a); auto; cbn.
-  - intros X. rewrite X in Cp. destruct p; discriminate.
+  - left. intros X. rewrite X in Cp. destruct p; discriminate.
   - unfold pend. cbn. rewrite HN, Q. destruct (fp s), p; try discriminate; reflexivity.
 Qed.
 
-Lemma sim_step cap s a l s' :
-  Inv s -> Sim s a -> step cap s l = Some s' ->
-  match vis l with
-  | Some ev => exists a', astep a ev = Some a' /\ Sim s' a'
-  | None => Sim s' a
-  end.
+Lemma sim_logcall cap s a e s' :
+  Inv s -> Sim s a -> step cap s (LogCall e) = Some s' -> exists a', astep a (ECall e) = Some a' /\ Sim s' a'.
 Proof.
-  intros I S Hs. destruct l; cbn [vis]; unfold step, gstep in Hs.
-  - (* LogCall *)
+  intros I S Hs. unfold step, gstep in Hs.
     destruct (lp s (eg e)) eqn:L; try discriminate. destruct (en e =? cnt s (eg e)) eqn:C; [|discriminate].
     apply N.eqb_eq in C. inversion Hs; subst s'; clear Hs.
     destruct S as [S1 S2 S3 S4 S5 S6 S7 S8]; unfold pend in *.
@@ -748,6 +775,16 @@ Proof.
       * inversion L0; subst. eapply S6; eauto.
       * exfalso. apply (proj2 (S3 e0)); [left; rewrite Hq; apply in_or_app; right; now left | exact LX].
     + eapply FlRel_mono; eauto; cbn; try lia; try (intros; now left).
+Qed.
+
+Lemma sim_step cap s a l s' :
+  Inv s -> Sim s a -> step cap s l = Some s' ->
+  match vis l with
+  | Some ev => exists a', astep a ev = Some a' /\ Sim s' a'
+  | None => Sim s' a
+  end.
+Proof.
+  intros I S Hs. destruct l; cbn [vis]; try (eapply sim_logcall; eassumption); unfold step, gstep in Hs.
   - (* Enq *)
     destruct (lp s g) eqn:L; try discriminate. destruct (N.of_nat (length (q s)) <? cap); [|discriminate].
     inversion Hs; subst s'; clear Hs.
@@ -803,6 +840,12 @@ Proof.
     + eapply FlRel_mono; eauto; cbn; try lia. intros x r Hin.
       destruct (lookupE e (a_unw a)); [|now left]. apply in_app_or in Hin. destruct Hin as [Hin | [X | []]]; [now left|].
       inversion X. right. lia.
+  - (* SetLevel *)
+    inversion Hs; subst s'; clear Hs. apply (sim_same_pend s a); auto.
+  - (* LogCallAt *)
+    apply (sim_logcall cap s a e s' I S). apply (logcallat_is_logcall cap s e l s' Hs).
+  - (* LogFiltered *)
+    destruct (logfiltered_nop cap s g l s' Hs) as (_ & _ & ->). exact S.
   - (* FlushCall *)
     destruct S as [S1 S2 S3 S4 S5 S6 S7 S8]; unfold pend in *.
     assert (W : forall x c, In (x, c) (a_unw a) -> c < a_t a + 1) by (intros x c0 Hin; pose proof (S4 _ _ Hin); lia).
@@ -813,7 +856,7 @@ Proof.
     assert (NM : mem_N c (f_in (a_fl a)) = false).
     { destruct (mem_N c (f_in (a_fl a))) eqn:M; [|reflexivity]. apply mem_N_true in M. apply F1 in M.
       destruct FC as [X | [b X]]; rewrite X in M; destruct M; discriminate. }
-    assert (Hs' : s' = mk (q s) (fp s) (req s) (upd (fl s) c FCalled) (lp s) (cnt s) (hist s) (written s) (retd s) (pre_req s)).
+    assert (Hs' : s' = mk (q s) (fp s) (req s) (upd (fl s) c FCalled) (lp s) (cnt s) (hist s) (written s) (retd s) (pre_req s) (lvl s)).
     { destruct FC as [X | [b X]]; rewrite X in Hs; inversion Hs; reflexivity. }
     subst s'. clear Hs. unfold astep. rewrite NM. eexists. split; [reflexivity|]. constructor; unfold pend; cbn; auto.
     unfold FlRel; cbn. repeat split.
@@ -848,7 +891,7 @@ Proof.
     assert (M : mem_N c (f_in (a_fl a)) = true) by (apply mem_N_true; apply F1; now right).
     destruct (f_first (a_fl a)) as [f|] eqn:FF; [|exfalso; apply (F2 c); [rewrite F; discriminate | reflexivity]].
     destruct (F4 _ eq_refl) as [Hf Hp].
-    assert (NewRel : forall dn, FlRel (mk (q s) (fp s) (req s) (upd (fl s) c (FReturned done)) (lp s) (cnt s) (hist s) (written s) (retd s) (pre_req s))
+    assert (NewRel : forall dn, FlRel (mk (q s) (fp s) (req s) (upd (fl s) c (FReturned done)) (lp s) (cnt s) (hist s) (written s) (retd s) (pre_req s) (lvl s))
                             (mkA (a_t a + 1) (a_fly a) (a_next a) (a_unw a) (a_ret a) (mkFl (Some f) (filter (fun x => negb (c =? x)) (f_in (a_fl a)))) dn)).
     { intros dn. unfold FlRel; cbn. repeat split.
       - intros Hin. apply filter_In in Hin. destruct Hin as [Hin Ne]. unfold upd. destruct (c0 =? c) eqn:E.
@@ -872,15 +915,15 @@ Proof.
   - (* PollTake *) apply (sim_recv s a e Top (HoldT e) s' S Hs eq_refl).
   - (* PollEmpty *)
     destruct (fp s) eqn:P; try discriminate. destruct (q s) eqn:Q; try discriminate. inversion Hs; subst s'; clear Hs.
-    apply (sim_same_pend s a); auto; [congruence | unfold pend; cbn; rewrite P, Q; reflexivity].
+    apply (sim_same_pend s a); auto; [left; congruence | unfold pend; cbn; rewrite P, Q; reflexivity].
   - (* InnerTake *) apply (sim_recv s a e Inner (HoldT e) s' S Hs eq_refl).
   - (* InnerSync *)
     destruct (fp s) eqn:P; try discriminate. destruct (req s) eqn:R; [|discriminate]. inversion Hs; subst s'; clear Hs.
-    apply (sim_same_pend s a); auto; [congruence | unfold pend; cbn; rewrite P; reflexivity].
+    apply (sim_same_pend s a); auto; [left; congruence | unfold pend; cbn; rewrite P; reflexivity].
   - (* DrainTake *) apply (sim_recv s a e Drain (HoldD e) s' S Hs eq_refl).
   - (* DrainDone *)
     destruct (fp s) eqn:P; try discriminate. destruct (q s) eqn:Q; try discriminate. inversion Hs; subst s'; clear Hs.
-    apply (sim_same_pend s a); auto; [congruence | unfold pend; cbn; rewrite P, Q; reflexivity].
+    apply (sim_same_pend s a); auto; [left; congruence | unfold pend; cbn; rewrite P, Q; reflexivity].
   - (* Write *) apply (sim_write cap s a e s' I S). exact Hs.
 Qed.
 
@@ -968,7 +1011,9 @@ Proof. vm_compute. split; [reflexivity | discriminate]. Qed.
 Lemma step_cnt cap s l s' : step cap s l = Some s' ->
   (forall g, cnt s g <= cnt s' g) /\ (forall e, calls_of [l] = [e] -> en e = cnt s (eg e) /\ cnt s' (eg e) = en e + 1).
 Proof.
-  intros Hs. destruct l; crush_step Hs; split; try (intros; lia); try (intros ? X; discriminate).
+  intros Hs0. destruct (normalize_label _ _ _ _ Hs0) as (l' & Hs & <- & _ & _ & _ & NL). clear Hs0.
+  destruct l' as [| | | |e9 n9| | | | | | | | | | |]; try (exfalso; eapply NL; reflexivity);
+    crush_step Hs; split; try (intros; lia); try (intros ? X; discriminate).
   - intros g. unfold upd. destruct (g =? eg e) eqn:E; [apply N.eqb_eq in E; subst; lia | lia].
   - intros x X. inversion X; subst. rewrite upd_same. apply N.eqb_eq in Heqb. split; lia.
 Qed.
@@ -987,8 +1032,8 @@ Proof.
   destruct (step_cnt _ _ _ _ E) as [Mono New].
   replace (calls_of (l :: ls)) with (calls_of [l] ++ calls_of ls) in Hin by (destruct l; reflexivity).
   apply in_app_or in Hin. destruct Hin as [Hin | Hin].
-  - destruct l; cbn in Hin; try contradiction. destruct Hin as [<- | []].
-    destruct (New e0 eq_refl) as [A B]. pose proof (run_cnt _ _ _ _ Hr (eg e0)). lia.
+  - assert (X : calls_of [l] = [e]) by (destruct l; cbn in Hin; try contradiction; destruct Hin as [<- | []]; reflexivity).
+    destruct (New e X) as [A B]. pose proof (run_cnt _ _ _ _ Hr (eg e)). lia.
   - destruct (IH _ _ Hr e Hin) as [A B]. pose proof (Mono (eg e)). lia.
 Qed.
 
@@ -1046,7 +1091,8 @@ Proof.
   assert (E : q s = [] -> heldp (fp s) = [] -> pending s = 0%nat).
   { intros Q Hh. unfold pending. pose proof (i_req_pre _ I R) as P. rewrite (i_hist _ I), Q, Hh, !app_nil_r in P.
     apply prefix_length in P. lia. }
-  destruct l; unfold step, gstep, take in Hs; rewrite ?R in Hs; unfold weight in *; destruct (fp s) eqn:P; cbn in Hs.
+  destruct l; try (destruct (logfiltered_nop _ _ _ _ _ Hs) as (_ & _ & ->); repeat split; auto; right; cbn; lia);
+    unfold step, gstep, take in Hs; rewrite ?R in Hs; unfold weight in *; destruct (fp s) eqn:P; cbn in Hs.
   all: repeat match type of Hs with
        | context [match ?x with _ => _ end] => destruct x eqn:?; try discriminate
        | context [if ?x then _ else _] => destruct x eqn:?; try discriminate
@@ -1475,3 +1521,42 @@ Proof.
   destruct (run_no_call_no_request _ _ _ _ R1 (fun _ => eq_refl) N) as [NR _].
   eapply flush_complete; eauto.
 Qed.
+
+(* ---------- the log level: a guard on the accept step, and on nothing else ---------- *)
+
+Theorem accept_guard cap s e l s' : step cap s (LogCallAt e l) = Some s' -> lvl s <= l /\ step cap s (LogCall e) = Some s'.
+Proof. apply logcallat_is_logcall. Qed.
+Theorem filtered_call_submits_nothing cap s g l s' : step cap s (LogFiltered g l) = Some s' -> l < lvl s /\ s' = s.
+Proof. intros H. destruct (logfiltered_nop _ _ _ _ _ H) as (A & _ & B). auto. Qed.
+
+Definition with_lvl (s : st) (n : N) : st :=
+  mk (q s) (fp s) (req s) (fl s) (lp s) (cnt s) (hist s) (written s) (retd s) (pre_req s) n.
+
+(* changing the level changes the level *)
+Theorem set_level_touches_nothing_else cap s n s' : step cap s (SetLevel n) = Some s' -> s' = with_lvl s n.
+Proof. unfold step, gstep. intros H. inversion H. reflexivity. Qed.
+
+(* every step of the flusher (receive, Write, the selects, the acknowledgement), every Enq / LogRet and every FlushLogger
+   step is enabled, and has the same effect, whatever the level is: what was accepted is written regardless of later
+   SetLevel calls *)
+Definition level_blind (l : label) : bool :=
+  match l with LogCallAt _ _ | LogFiltered _ _ | SetLevel _ => false | _ => true end.
+Theorem level_consulted_only_at_accept cap s n l : level_blind l = true ->
+  step cap (with_lvl s n) l = match step cap s l with Some s' => Some (with_lvl s' n) | None => None end.
+Proof.
+  intros B. destruct l; try discriminate; unfold step, gstep, take, with_lvl; cbn;
+    repeat match goal with |- context [match ?x with _ => _ end] => destruct x end; reflexivity.
+Qed.
+
+(* accepted at DEBUG, then the level is raised to ERROR while the entry is queued; a WriteLog call (no level) at level ERROR;
+   a filtered Info call: the flush writes both accepted entries *)
+Definition sched_levels : list label :=
+  [LogCallAt e00 0; Enq 0; LogRet e00; SetLevel 3; LogFiltered 0 1; LogCall e01; Enq 0; LogRet e01; FlushCall 0; Request 0;
+   PollTake e00; Write e00; PollTake e01; Write e01; PollEmpty; InnerSync; DrainDone; FlushRet 0 true].
+Example levels_run : exists s, run 4 init sched_levels = Some s /\ written s = [e00; e01] /\ lvl s = 3 /\ q s = [].
+Proof. eexists. vm_compute. repeat split. Qed.
+Example levels_accepted : accepts (visible sched_levels) = true.
+Proof. vm_compute. reflexivity. Qed.
+Example debug_call_refused_at_error : step 4 (with_lvl init 3) (LogCallAt e00 0) = None /\
+  step 4 (with_lvl init 3) (LogFiltered 0 3) = None /\ step 4 (with_lvl init 3) (LogFiltered 0 2) = Some (with_lvl init 3).
+Proof. vm_compute. repeat split. Qed.
